@@ -232,7 +232,7 @@ func runSeq(g globalSpec, ops []op) [][]dobs {
 	return out
 }
 
-// ---------- Gallina printing (the cases header opens N_scope) ----------
+// ---------- Gallina printing (every case term is wrapped in (…)%N: field ids and masks are N) ----------
 func gN(k uint64) string { return fmt.Sprintf("%d", k) }
 
 func gFields(ks []uint64) string { return gal.ListOf(ks, gN) }
@@ -282,10 +282,10 @@ func emit(out *gal.Out, kind string, g globalSpec, ops []op) {
 		g.Fields = []uint64{}
 	}
 	obs := runSeq(g, ops)
-	t := "{| lc_glob := " + gCore(g) + "; lc_ops := " + gal.ListOf(ops, gOp) + "; lc_obs := " +
+	t := "({| lc_glob := " + gCore(g) + "; lc_ops := " + gal.ListOf(ops, gOp) + "; lc_obs := " +
 		gal.ListOf(obs, func(r []dobs) string {
 			return gal.ListOf(r, func(d dobs) string { return gal.Pair(gal.Nat(d.Ctx), gObs(d.Obs)) })
-		}) + " |}"
+		}) + " |})%N"
 	out.Case(t, jcase{kind, g, ops, obs})
 }
 
@@ -457,9 +457,9 @@ func stress(out *gal.Out, g *gen, n int) {
 		close(start)
 		wg.Wait()
 		fin := probe(base, logs)
-		t := "{| sc_init := " + gCore(gs) + "; sc_progs := " +
+		t := "({| sc_init := " + gCore(gs) + "; sc_progs := " +
 			gal.ListOf(progs, func(p []cop) string { return gal.ListOf(p, gCop) }) +
-			"; sc_final := " + gObs(fin) + " |}"
+			"; sc_final := " + gObs(fin) + " |})%N"
 		out.Case(t, scase{"stress", gs, progs, fin, it, nth})
 	}
 }
